@@ -184,6 +184,20 @@ fn scalar_case(item: u64, rng: &mut Rng, acc: &mut Acc) {
     }
 }
 
+pub fn miri_case(item: u64, rng: &mut Rng, acc: &mut Acc) {
+    match item % 9 {
+        0 => vec_case::<1>(item, rng, acc),
+        1 => vec_case::<2>(item, rng, acc),
+        2 => vec_case::<3>(item, rng, acc),
+        3 => vec_case::<4>(item, rng, acc),
+        4 => vec_case::<5>(item, rng, acc),
+        5 => vec_case::<6>(item, rng, acc),
+        6 => vec_case::<7>(item, rng, acc),
+        7 => vec_case::<8>(item, rng, acc),
+        _ => scalar_case(item, rng, acc),
+    }
+}
+
 pub fn run(ctx: &Ctx) -> i32 {
     let per_item = 2000usize;
     let n_items = ctx.n(500, 50_000);
